@@ -44,6 +44,32 @@ for top in ('rspirv', 'spirv', 'dis'):
                 if re.search(r'\bdebug_assert(_eq|_ne)?!|debug_assertions', code):
                     if code.strip() not in ALLOW:
                         nodebug = True
+# reads whose argument is not a literal (a const, a variable): every string literal of a file that touches the
+# environment at all and that looks like a variable name (UPPER_CASE) is taken as a candidate name, with the value 1 and the
+# option-like words of that file
+for top in ('rspirv', 'spirv', 'dis'):
+    for d, dirs, files in os.walk(os.path.join(ROOT, top)):
+        dirs[:] = [x for x in dirs if x not in ('target', 'tests', '.git')]
+        for f in files:
+            if not f.endswith('.rs'):
+                continue
+            try:
+                text = open(os.path.join(d, f), encoding='utf-8', errors='replace').read()
+            except OSError:
+                continue
+            code = '\n'.join(l.split('//')[0] if not l.lstrip().startswith('///') else '' for l in text.split('\n'))
+            if not re.search(r'\benv::(var|var_os|vars|vars_os)\b|\bstd::env\b|\benv!\(|\boption_env!\(', code):
+                continue
+            if top == 'dis' and not re.search(r'\benv::(var|var_os|vars|vars_os)\b', code):
+                continue  # the tool reads its command line (env::args): not a seam of this kind
+            words = []
+            for w in re.findall(r'"([a-z0-9][a-z0-9_,=-]{1,30})"', code):
+                if w not in words:
+                    words.append(w)
+            for name in re.findall(r'"([A-Z][A-Z0-9_]{2,40})"', code):
+                for v in ['1'] + words[:20]:
+                    if (name, v) not in env:
+                        env.append((name, v))
 for n, v in env:
     print('ENV %s=%s' % (n, v))
 if nodebug:
